@@ -12,11 +12,13 @@
            code per waiter: 0 own answer, own id | 1 somebody else's answer |
              2 own answer, id not restored | 3 Error::TcpConnection |
              4 Error::Internal | 5 Error::FailedToSend | 6 other | 7 no result
-   kind 4  [4; t0_ms; slack_ms; nq; (lst proto mask delay_ms dup special)*nq;
+   kind 4  [4; t0_ms; t0hi_ms; slack_ms; nq; (lst proto mask delay_ms dup special)*nq;
                           (nresp rcode own srcok idok utx ttx)*nq]
            one batch of concurrent client queries through the real service
            (listener -> acl -> router -> cache -> OutQuery) against a scripted
-           upstream.  slack_ms = 150 + 3 x the largest scheduling lag the harness
+           upstream.  t0_ms = the first-retry delay set before the queries were
+           released, t0hi_ms = the largest value the (global, adaptive) delay took
+           while they ran (a query reads it when it starts).  slack_ms = 150 + 3 x the largest scheduling lag the harness
            measured during the run (a task sleeping 5 ms at a time): how far a
            reply may be off its scripted delay for the comparison of
            transmission counts.
@@ -229,11 +231,11 @@ Fixpoint max_jitters (n : nat) (timeout : N) : list N :=
 
 (* transmissions the upstream may see, and whether the query may time out /
    may be answered, over the whole jitter range and +-SLACK on the delay *)
-Definition retry_bounds (t0_ns SLACK_NS mask delay_ns : N) : N * N * bool * bool :=
+Definition retry_bounds (t0_ns t0hi_ns SLACK_NS mask delay_ns : N) : N * N * bool * bool :=
   let fast := retry (fates_of mask (delay_ns + SLACK_NS)) [0; 0; 0; 0] t0_ns in
-  let slow := retry (fates_of mask (delay_ns - SLACK_NS)) (max_jitters 4 t0_ns) t0_ns in
+  let slow := retry (fates_of mask (delay_ns - SLACK_NS)) (max_jitters 4 t0hi_ns) t0hi_ns in
   let fast' := retry (fates_of mask (delay_ns - SLACK_NS)) [0; 0; 0; 0] t0_ns in
-  let slow' := retry (fates_of mask (delay_ns + SLACK_NS)) (max_jitters 4 t0_ns) t0_ns in
+  let slow' := retry (fates_of mask (delay_ns + SLACK_NS)) (max_jitters 4 t0hi_ns) t0hi_ns in
   let lo := N.min (N.min (transmissions fast) (transmissions slow)) (N.min (transmissions fast') (transmissions slow')) in
   let hi := N.max (N.max (transmissions fast) (transmissions slow)) (N.max (transmissions fast') (transmissions slow')) in
   let may_timeout := is_timeout fast || is_timeout slow || is_timeout fast' || is_timeout slow' in
@@ -259,12 +261,12 @@ Definition spec_query (t0 : N) (q o : list N) : N :=
   end.
 
 (* MODEL expectation: (lo, hi) transmissions, allowed rcodes, tcp queries *)
-Definition model_query (t0 slack : N) (q : list N) : list N :=
+Definition model_query (t0 t0hi slack : N) (q : list N) : list N :=
   match q with
   | [lst; proto; mask; delay; dup; special] =>
     if 0 <? proto then [0; 0; 0; 0; 1; 1]      (* utx in [0,0]; rcode 0 only; ttx in [1,1] *)
     else
-      let '(lo, hi, may_to, may_an) := retry_bounds (t0 * MS) (slack * MS) (mask mod 16) (delay * MS) in
+      let '(lo, hi, may_to, may_an) := retry_bounds (t0 * MS) (t0hi * MS) (slack * MS) (mask mod 16) (delay * MS) in
       let rc_lo := if may_an then 0 else SERVFAIL in
       let rc_hi := if may_to then SERVFAIL else 0 in
       let t_hi := if may_an && negb (special =? 0) then 1 else 0 in
@@ -273,8 +275,8 @@ Definition model_query (t0 slack : N) (q : list N) : list N :=
   | _ => []
   end.
 
-Definition agree_query (t0 slack : N) (q o : list N) : bool :=
-  match model_query t0 slack q, o with
+Definition agree_query (t0 t0hi slack : N) (q o : list N) : bool :=
+  match model_query t0 t0hi slack q, o with
   | [lo; hi; rc_lo; rc_hi; t_lo; t_hi], [nresp; rcode; own; srcok; idok; utx; ttx] =>
     inb lo hi utx && ((rcode =? rc_lo) || (rcode =? rc_hi)) && inb t_lo t_hi ttx
     && ((rcode =? 0) || (ttx <=? t_hi))
@@ -286,9 +288,9 @@ Fixpoint first_viol (t0 : N) (qs os : list (list N)) : N :=
   | q :: qr, o :: or => let p := spec_query t0 q o in if p =? 0 then first_viol t0 qr or else p
   | _, _ => 0
   end.
-Fixpoint first_diff (t0 slack : N) (idx : N) (qs os : list (list N)) : option (N * list N) :=
+Fixpoint first_diff (t0 t0hi slack : N) (idx : N) (qs os : list (list N)) : option (N * list N) :=
   match qs, os with
-  | q :: qr, o :: or => if agree_query t0 slack q o then first_diff t0 slack (idx + 1) qr or else Some (idx, model_query t0 slack q)
+  | q :: qr, o :: or => if agree_query t0 t0hi slack q o then first_diff t0 t0hi slack (idx + 1) qr or else Some (idx, model_query t0 t0hi slack q)
   | _, _ => None
   end.
 
@@ -299,15 +301,15 @@ Definition q_silent (q : list N) : bool :=
 
 Definition check_batch (ts : list N) : list N :=
   match ts with
-  | t0 :: slack :: nq :: r =>
+  | t0 :: t0hi :: slack :: nq :: r =>
     match chunk 6 (N.to_nat nq) r with
     | Some (qs, r1) =>
       match chunk 7 (N.to_nat nq) r1 with
       | Some (os, []) =>
-        if (t0 =? 0) then v_bad else
+        if (t0 =? 0) || (t0hi <? t0) then v_bad else
         let p := first_viol t0 qs os in
         if negb (p =? 0) then v_viol p
-        else match first_diff t0 slack 0 qs os with
+        else match first_diff t0 t0hi slack 0 qs os with
              | Some (idx, e) => v_diff (idx :: e)
              | None => v_ok (if existsb q_silent qs then 6 else if existsb q_lossy qs then 5 else 4)
              end
